@@ -4,30 +4,38 @@ From HpoV Require Import Gen.Consts Model.Base Model.Group Model.Onto Model.F32 
 
 (* file (laid out by the harness's own encoder), layout version, the same facts as a Builder
    script (build_with_defaults), flags per term (id, obsolete, replacement), suffixes to append,
-   values for the version byte, oracle table *)
+   values for the version byte, oracle table, single-byte mutations (position, new value) of the file *)
 Definition input_C08 : Type :=
-  list N * N * script * list (N * N * list N) * list (list N) * list N * list (N * N).
+  list N * N * script * list (N * N * list N) * list (list N) * list N * list (N * N) * list (N * N).
 
 Definition class {A} (r : res A) : N := match r with Ok _ => 0 | Err _ => 1 | Panic => 2 | Fuel => 3 end.
 
 (* decode of the file, the Builder's ontology, outcome class for every proper prefix, for every
-   suffix, for every version byte (v2/v3 files: byte 3 replaced; v1 files: "HPO" + byte prepended) *)
-Definition obs_C08 : Type := res donto * res donto * list N * list N * list N.
+   suffix, for every version byte (v2/v3 files: byte 3 replaced; v1 files: "HPO" + byte prepended);
+   the whole outcome (ontology dump, error or panic) of loading each single-byte mutant of the file:
+   near-valid malformed input — absent ids, repeated ids, wrong lengths, invalid UTF-8 — on which
+   model and crate must agree although the property demands nothing of it *)
+Definition obs_C08 : Type := res donto * res donto * list N * list N * list N * list (res donto).
 
+Definition set_byte (b : list N) (pos v : N) : list N := firstn (nat_of pos) b ++ [v] ++ skipn (S (nat_of pos)) b.
+
+(* evaluated through decode_g: equal to decode (Properties/C08.v C08_guarded_evaluator_is_decode), but a damaged
+   parent count does not make the evaluation build a unary number of that size *)
 Definition dec (tbl : list (N * N)) (b : list N) : res donto :=
-  match decode (ic32 (table_oracle tbl)) b with
+  match decode_g (ic32 (table_oracle tbl)) b with
   | Ok o => dump_onto o | Err e => Err e | Panic => Panic | Fuel => Fuel
   end.
 
 Definition set_nth3 (b : list N) (v : N) : list N := firstn 3 b ++ [v] ++ skipn 4 b.
 
 Definition run_C08 (i : input_C08) : obs_C08 :=
-  let '(file, ver, s, flags, suffixes, vbytes, tbl) := i in
+  let '(file, ver, s, flags, suffixes, vbytes, tbl, muts) := i in
   (dec tbl file,
    final_dump_of (run_W (WBuilder s, tbl)),
    map (fun k => class (dec tbl (firstn k file))) (seq 0 (length file)),
    map (fun sfx => class (dec tbl (file ++ sfx))) suffixes,
-   map (fun v => class (dec tbl (if ver =? 1 then MAGIC_READER ++ [v] ++ file else set_nth3 file v))) vbytes).
+   map (fun v => class (dec tbl (if ver =? 1 then MAGIC_READER ++ [v] ++ file else set_nth3 file v))) vbytes,
+   map (fun m : N * N => dec tbl (set_byte file (fst m) (snd m))) muts).
 
 (* ---------------- the property ---------------- *)
 
@@ -47,8 +55,8 @@ Definition flags_ok (flags : list (N * N * list N)) (d : donto) : bool :=
      end) (do_terms d).
 
 Definition spec_C08 (i : input_C08) (o : obs_C08) : bool :=
-  let '(file, ver, s, flags, suffixes, vbytes, tbl) := i in
-  let '(valid, built, truncs, sfx, vb) := o in
+  let '(file, ver, s, flags, suffixes, vbytes, tbl, muts) := i in
+  let '(valid, built, truncs, sfx, vb, _) := o in
   (* a valid file decodes to exactly the ontology it describes *)
   match valid, built with
   | Ok d, Ok b => matrix_eqb (ser_donto (blank_flags d)) (ser_donto (blank_flags b)) && flags_ok flags d
